@@ -352,7 +352,7 @@ def _eval_events(node: ast.AST, stop: ast.AST):
             ev.append(("call", e))
         elif isinstance(e, ast.Attribute):
             go(e.value)
-            if isinstance(e.ctx, ast.Load):
+            if isinstance(e.ctx, ast.Load) and not isinstance(e.value, ast.Constant):      # a method of a literal reads no state
                 ev.append(("load", e))
         elif isinstance(e, ast.Subscript):
             go(e.value)
@@ -419,6 +419,24 @@ def _eval_events(node: ast.AST, stop: ast.AST):
     return ev, False
 
 
+def _pure_chain(e: ast.AST) -> bool:
+    return isinstance(e, ast.Name) or (isinstance(e, ast.Attribute) and _pure_chain(e.value))
+
+
+def _replace_in(root: ast.AST, target: ast.AST, new: ast.AST) -> bool:
+    for parent in ast.walk(root):
+        for fld, val in ast.iter_fields(parent):
+            if val is target:
+                setattr(parent, fld, ast.copy_location(new, target))
+                return True
+            if isinstance(val, list):
+                for k, v in enumerate(val):
+                    if v is target:
+                        val[k] = ast.copy_location(new, target)
+                        return True
+    return False
+
+
 def _impure_calls(e: ast.AST):
     return [x for x in ast.walk(e) if isinstance(x, ast.Call) and not (isinstance(x.func, ast.Name) and x.func.id in _PURE_BUILTINS)]
 
@@ -447,12 +465,36 @@ def _inline_fresh_temps(fn: ast.FunctionDef, known: set) -> None:
                 if not (isinstance(st, ast.Assign) and len(st.targets) == 1 and isinstance(st.targets[0], ast.Name)):
                     continue
                 t = st.targets[0].id
+                if t not in known and t not in params and len(stores.get(t, [])) == 1 and len(loads.get(t, [])) > 1 and _pure_chain(st.value) \
+                        and isinstance(st.value, ast.Attribute) and blk is fn.body:
+                    # alias of an attribute chain, read several times: every read is the chain itself as long as nothing in
+                    # the function stores to that attribute or rebinds the chain's root (a callee rebinding the caller's
+                    # attribute behind its back is assumed not to happen)
+                    chain = st.value
+                    root = chain
+                    while isinstance(root, ast.Attribute):
+                        root = root.value
+                    attr_names = set()
+                    c_ = chain
+                    while isinstance(c_, ast.Attribute):
+                        attr_names.add(c_.attr)
+                        c_ = c_.value
+                    clash = any(isinstance(x, ast.Attribute) and isinstance(x.ctx, (ast.Store, ast.Del)) and x.attr in attr_names for x in ast.walk(fn)) \
+                        or (isinstance(root, ast.Name) and root.id != "self" and len(stores.get(root.id, [])) > 0 and root.id not in params) \
+                        or any(isinstance(x, (ast.FunctionDef, ast.Lambda)) and x is not fn and any(isinstance(y, ast.Name) and y.id == t for y in ast.walk(x)) for x in ast.walk(fn))
+                    later = all(any(u is y for later_st in blk[i + 1:] for y in ast.walk(later_st)) for u in loads[t])
+                    if not clash and later:
+                        for u in loads[t]:
+                            _replace_in(fn, u, _copy.deepcopy(chain))
+                        del blk[i]
+                        changed = True
+                        break
                 if t in known or t in params or len(stores.get(t, [])) != 1 or len(loads.get(t, [])) != 1:
                     continue
                 use = loads[t][0]
                 rhs = st.value
-                if any(isinstance(x, banned + (ast.Starred,)) for x in ast.walk(rhs)):
-                    continue
+                if any(isinstance(x, (ast.Lambda, ast.NamedExpr, ast.Await, ast.Yield, ast.YieldFrom, ast.Starred)) for x in ast.walk(rhs)):
+                    continue                    # (a comprehension on the right-hand side is evaluated eagerly, once: it may move)
                 impure = bool(_impure_calls(rhs))
                 reads_state = any(isinstance(x, (ast.Attribute, ast.Subscript)) for x in ast.walk(rhs))
                 rhs_names = {x.id for x in ast.walk(rhs) if isinstance(x, ast.Name)}
@@ -576,8 +618,11 @@ def canonicalise(tree: ast.Module, rel: str = "") -> ast.Module:
     ref = _load_reference().get(rel) if not off else None
     if ref is not None:
         from . import canon
+        canon.inline_fresh_structs(tree, ref)
         canon.inline_fresh_constants(tree, ref)
         canon.inline_fresh_helpers(tree, ref)
+        canon.rename_fresh_members(tree, ref)
+        canon.restore_inlined_helpers(tree, ref)
     if names or ref is not None:
         def walk(node, prefix):
             for n in getattr(node, "body", []):
@@ -599,6 +644,7 @@ def canonicalise(tree: ast.Module, rel: str = "") -> ast.Module:
                     _inline_fresh_temps(n, known)
                     if ref is not None and q in ref.get("funcs", {}):
                         from . import canon
+                        canon.normalise_expression_forms(n, ref["funcs"][q])
                         canon.normalise_control_flow(n, ref["funcs"][q].get("tests", []), ref["funcs"][q].get("forms", {}))
                         _inline_fresh_temps(n, known)
                     walk(n, q + ".")
